@@ -204,7 +204,7 @@ func checkCacheIndexes(e *Env, ci *ClientInst, who string, tables map[string][]s
 // through the Database interface: every stored row must be found by its own
 // index values, and a probe carrying a row's index values under another uuid
 // must collide with exactly that row.
-func checkServerIndexes(e *Env, si *ServerInst, st DBState) {
+func checkServerIndexes(e *Env, si *ServerInst, st DBState, oracle string) {
 	if len(dupIndexTuples(e.Sch, st)) > 0 {
 		// the database itself stores a duplicate index tuple: that is C06's defect, and the index cannot agree with such contents
 		e.Abort("duplicate index tuple stored in the database: C06's concern")
@@ -224,7 +224,7 @@ func checkServerIndexes(e *Env, si *ServerInst, st DBState) {
 			for _, u := range SortedKeys(models) {
 				m := models[u]
 				if err := si.DB.Inner.CheckIndexes(e.Sch.Name, tn, m); err != nil {
-					e.ViolateK("C05.server-index", "row-collides-with-itself-or-stale-entry", "server database: stored row %s/%s collides in a schema index: %v", tn, u, err)
+					e.ViolateK(oracle, "row-collides-with-itself-or-stale-entry", "server database: stored row %s/%s collides in a schema index: %v", tn, u, err)
 					return
 				}
 				p := reflect.New(reflect.TypeOf(m).Elem())
@@ -234,7 +234,7 @@ func checkServerIndexes(e *Env, si *ServerInst, st DBState) {
 				ie, isIdx := err.(*cache.ErrIndexExists)
 				e.Probes["c05_server_probe"]++
 				if err == nil || !isIdx {
-					e.ViolateK("C05.server-index", "row-unreachable", "server database: row %s/%s (%s) is not reachable through its schema index: a probe with the same index values does not collide (%v)", tn, u, st[tn][u], err)
+					e.ViolateK(oracle, "row-unreachable", "server database: row %s/%s (%s) is not reachable through its schema index: a probe with the same index values does not collide (%v)", tn, u, st[tn][u], err)
 					return
 				}
 				found := false
@@ -244,7 +244,7 @@ func checkServerIndexes(e *Env, si *ServerInst, st DBState) {
 					}
 				}
 				if !found {
-					e.ViolateK("C05.server-index", "entry-leads-elsewhere", "server database: index values of %s/%s lead to %v", tn, u, ie.Existing)
+					e.ViolateK(oracle, "entry-leads-elsewhere", "server database: index values of %s/%s lead to %v", tn, u, ie.Existing)
 					return
 				}
 			}
